@@ -365,6 +365,23 @@ func runOapiCompute(prop string) func(h *H) {
 			outcomes[fmt.Sprint(res.status, res.outcome)]++
 			h.emit(h.line(prop, "oapi").oreq(r).Bar().oresp(r.stats, res))
 		}
+		if prop == "C03" {
+			// default epsilon = 1e-6/n with n decided by a much larger initial trust, slow convergence:
+			// closed clusters, small alpha, initial trust concentrated on one cluster
+			for k := 0; k < h.budget(6, 40); k++ {
+				m := 2 * (g.intn(2) + 1)
+				lt := mRef{kind: "inline", size: m}
+				for i := 0; i < m; i += 2 {
+					lt.entries = append(lt.entries, mEntry{i, i + 1, 1}, mEntry{i + 1, i, 1})
+				}
+				big := 30 + g.intn(30)
+				it := &vRef{kind: "inline", size: big, entries: []vEntry{{0, 1}, {1, 1}}}
+				r := oReq{stats: g.intn(2) == 0, lt: lt, it: it, alpha: fp([]float64{0.02, 0.05}[g.intn(2)])}
+				g.count("default-epsilon-large-initial-trust")
+				res := env.compute(r, 60*time.Second)
+				h.emit(h.line(prop, "oapi").oreq(r).Bar().oresp(r.stats, res))
+			}
+		}
 		h.notes["outcomes"] = outcomes
 	}
 }
@@ -467,6 +484,7 @@ func runC13(h *H) {
 	}
 	runConcStore(h, "C13")
 	runConcDirect(h, "C13")
+	runConcStoredBody(h, "C13")
 }
 
 // ---------------------------------------------------------------------------------------------
